@@ -415,6 +415,9 @@ class Check:
             return
         t0 = time.time()
         r = native_replay(kind, params, python, timeout=timeout)
+        if "failures" not in r and "reproduced" in r and "replay harness" not in str(r.get("detail")):
+            # a scenario oracle without a failure list: one failure when it reproduced a violation
+            r["failures"] = [{"detail": r.get("detail"), "reproduced": True, "witness": dict(params, replay_kind=kind)}] if r["reproduced"] else []
         fails = r.get("failures", [])
         if r.get("hang"):
             fails = [{"witness": params, "detail": r["detail"], "reproduced": True}]
